@@ -9,6 +9,7 @@ import Driver.SqlText
 import Driver.Engine
 import Driver.TxToScript
 import Driver.Store
+import Driver.Syntax
 /-! registry of the areas the driver serves -/
 namespace Driver
 def areas : List (String × Handler) := [
@@ -22,6 +23,7 @@ def areas : List (String × Handler) := [
   ("sqllex", SqlTextD.handleLex),
   ("enginetrace", EngineD.handle),
   ("txscript", TxToScriptD.handle),
-  ("storeview", StoreD.handle)
+  ("storeview", StoreD.handle),
+  ("nstext", SyntaxD.handle)
 ]
 end Driver
